@@ -16,6 +16,13 @@ RULESETS = [
       ("assignment", {"equation": "_q = B - 1"}, "start")]),
     (["A", "B", "C"], ["k", "q"],
      [("additive", {"equation": "C = A + B"}, None), ("ode", {"equation": "k*C", "target": "A"}, None)]),
+    # a parameter target whose right-hand side mentions the volume and the time; a species rule that reads it
+    (["A", "B", "C"], {"k": None, "q": None},
+     [("assignment", {"equation": "q = k*volume + t"}, "repeated"), ("assignment", {"equation": "B = q + A"}, "repeated"),
+      ("assignment", {"equation": "k = A*volume"}, "dt")]),
+    # additive rules whose target is one of their own sources (accumulators)
+    (["A", "B", "C"], {"k": None, "q": None},
+     [("additive", {"equation": "C = C + A"}, "dt"), ("additive", {"equation": "B = A + B"}, "repeated"), ("additive", {"equation": "A = B + A + A"}, "dt")]),
 ]
 
 
